@@ -687,6 +687,10 @@ class Fn:
         l = self.loop(k)
         self.insert(self.stmt_start_before(l['kw_pos']), text.rstrip() + '\n', order=5)
 
+    def loop_post(self, k, text):
+        l = self.loop(k)
+        self.insert(l['body_close'] + 1, '\n' + text.rstrip() + '\n', order=5)
+
     def loop_inv(self, k, text):
         l = self.loop(k)
         self.insert(l['hdr_end'], '\n' + text.rstrip() + '\n', order=0)
